@@ -55,7 +55,7 @@ CLASSES = {
         "kind": "obj", "qualname": "aldy.sam.Sample",
         "fields": {
             "name": "str", "gene": "Gene", "profile": "Optional[Profile]", "path": "str",
-            "_dump_cn": "DefaultDict[int, int, 'int']", "_indel_sites": "Dict[Tuple[int, str], Tuple[int, int]]",
+            "_dump_cn": "DefaultDict[int, int, 'int']", "_indel_sites": "Dict[Tuple[int, str], List[int]]",
             "_indel_sites_eqs": "Dict[Tuple[int, str], Tuple[int, str]]",
             "_multi_sites": "Dict[int, str]", "phaseable": "Dict[int, int]",
             "phases": "Dict[str, Dict[int, str]]", "_fusion_counter": "Dict[str, Tuple[float, float]]",
